@@ -447,6 +447,67 @@ theorem preReads_facts (quic : Bool) :
         List.not_mem_nil, or_false] at hm
       rcases hm with rfl | rfl <;> exact ⟨(by intro h; cases h), (by intro h; cases h)⟩
 
+/-- `io.ReadFull` over a chunked reader returns the first `n` bytes of the concatenated stream and leaves the
+rest of it, however the reader cut the stream into chunks. -/
+theorem readFull_flatten : ∀ (cs : List Wire.Bytes) (n : Nat) (b : Wire.Bytes) (r : List Wire.Bytes),
+    readFull cs n = some (b, r) → b = cs.flatten.take n ∧ r.flatten = cs.flatten.drop n
+  | cs, 0, b, r, h => by
+    have : readFull cs 0 = some ([], cs) := by cases cs <;> rfl
+    rw [this] at h
+    cases h
+    simp
+  | [], n + 1, b, r, h => by simp [readFull] at h
+  | c :: cs, n + 1, b, r, h => by
+    simp only [readFull] at h
+    by_cases hc : c.length ≤ n + 1
+    · rw [if_pos hc] at h
+      cases hr : readFull cs (n + 1 - c.length) with
+      | none => rw [hr] at h; cases h
+      | some p =>
+        obtain ⟨b', r'⟩ := p
+        rw [hr] at h
+        simp only [Option.map_some, Option.some.injEq, Prod.mk.injEq] at h
+        obtain ⟨hb, hrr⟩ := h
+        obtain ⟨ih1, ih2⟩ := readFull_flatten cs (n + 1 - c.length) b' r' hr
+        subst hb hrr
+        constructor
+        · rw [List.flatten_cons, List.take_append, List.take_of_length_le hc, ih1]
+        · rw [List.flatten_cons, List.drop_append, List.drop_of_length_le hc, ih2]; simp
+    · rw [if_neg hc] at h
+      simp only [Option.some.injEq, Prod.mk.injEq] at h
+      obtain ⟨hb, hrr⟩ := h
+      subst hb hrr
+      have hlt : n + 1 ≤ c.length := by omega
+      constructor
+      · rw [List.flatten_cons, List.take_append_of_le_length hlt]
+      · rw [List.flatten_cons, List.flatten_cons, List.drop_append_of_le_length hlt]
+
+/-- all logical reads of an application are the consecutive slices of the concatenated stream. -/
+theorem readAll_slices : ∀ (ns : List Nat) (cs : List Wire.Bytes) (bs : List Wire.Bytes),
+    readAll cs ns = some bs → bs = slices cs.flatten ns
+  | [], cs, bs, h => by
+    simp only [readAll, Option.some.injEq] at h
+    subst h; rfl
+  | n :: ns, cs, bs, h => by
+    simp only [readAll] at h
+    cases hr : readFull cs n with
+    | none => rw [hr] at h; cases h
+    | some p =>
+      obtain ⟨b, r⟩ := p
+      rw [hr] at h
+      simp only at h
+      cases hrest : readAll r ns with
+      | none => rw [hrest] at h; cases h
+      | some bs' =>
+        rw [hrest] at h
+        simp only [Option.map_some, Option.some.injEq] at h
+        subst h
+        obtain ⟨h1, h2⟩ := readFull_flatten cs n b r hr
+        have ih := readAll_slices ns r bs' hrest
+        rw [h2] at ih
+        simp only [slices]
+        rw [h1, ih]
+
 /-- slices of two streams agree when the streams agree on the slice's range. -/
 theorem slice_congr (s1 s2 : Wire.Bytes) (off len : Nat)
     (h : ∀ i, off ≤ i → i < off + len → s1[i]? = s2[i]?) : slice s1 off len = slice s2 off len := by
